@@ -154,6 +154,8 @@ class Tensor:
         else:
             result = self
         for axis, value in non_scalar_indices:
+            # Scalar-indexed axes have already disappeared from the intermediate result.
+            axis -= sum(1 for a in to_squeeze if a < axis)
             result = op.Gather(result, value, axis=axis)
 
         return result
